@@ -146,6 +146,7 @@ func cmdCheck(args []string) int {
 	solver := fs.String("solver", "z3", "z3|z3-new|cvc5")
 	timeout := fs.Int("timeout", 5000, "per-query timeout ms of the incremental solver (a one-shot fallback gets 8x)")
 	budget := fs.Int("budget", 0, "wall-clock budget of the exploration in seconds (default: 1500 quick, 5400 thorough); when it is used up the run ends INCONCLUSIVE unless a counterexample was confirmed")
+	cross := fs.String("cross", "", "after a clean run, explore the quick bounds again with this solver (z3-new|cvc5) and require the same verdicts (default in the thorough tier: z3-new; \"none\" disables)")
 	noReplay := fs.Bool("no-replay", false, "skip native replay (debug)")
 	noEvidence := fs.Bool("no-evidence", false, "do not write the evidence file")
 	trace := fs.Bool("trace", false, "trace instructions")
@@ -270,6 +271,45 @@ func cmdCheck(args []string) int {
 		}
 	}
 
+	// cross-solver pass (solver diff): only after a clean main run
+	crossInfo := map[string]interface{}{}
+	if *cross == "" && *tier == "thorough" && *only == "" {
+		*cross = "z3-new"
+	}
+	if *cross != "" && *cross != "none" && *cross != *solver && len(R.Violations) == 0 && len(R.Inconclusive) == 0 {
+		c0 := time.Now()
+		cfg2 := cfg
+		cfg2.Solver = *cross
+		cfg2.Tier = 0
+		cfg2.Unwind = 64
+		R2 := NewResults()
+		q2 := newQueue(cfg2.Workers)
+		theQueue = q2
+		for i := range hs {
+			q2.put(job{harness: hs[(i+seed)%len(hs)]})
+		}
+		t2 := time.AfterFunc(time.Duration(*budget)*time.Second, func() { R2.stop("wall budget used up in the cross-solver pass") })
+		var wg2 sync.WaitGroup
+		for w := 0; w < cfg2.Workers; w++ {
+			wg2.Add(1)
+			go worker(w, P, q2, R2, cfg2, &wg2)
+		}
+		wg2.Wait()
+		t2.Stop()
+		crossInfo = map[string]interface{}{"solver": *cross, "bounds": "quick", "paths": R2.Paths, "obligations": R2.Obligations, "discharged": R2.Discharged,
+			"queries": R2.Solver.Queries, "unknown": R2.Solver.Unknown, "errors": R2.Solver.Errors, "solver_s": round3(R2.Solver.Seconds), "wall_s": round3(time.Since(c0).Seconds())}
+		if R2.stopped() {
+			R.inconclusive("cross-solver pass (" + *cross + "): " + R2.StopWhy)
+		}
+		if len(R2.Violations) > 0 {
+			R.inconclusive(fmt.Sprintf("solver disagreement: %s finds %d counterexample candidates where %s found none (first: %s %q)", *cross, len(R2.Violations), *solver, R2.Violations[0].Harness, R2.Violations[0].Msg))
+		}
+		for _, m := range R2.Inconclusive {
+			R.inconclusive("cross-solver pass (" + *cross + "): " + m)
+		}
+		fmt.Printf("gosmt cross-solver pass solver=%s paths=%d obligations=%d discharged=%d wall_s=%.1f\n", *cross, R2.Paths, R2.Obligations, R2.Discharged, time.Since(c0).Seconds())
+	}
+
 	// native replay: counterexamples + translator-validation vectors
 	confirmed := 0
 	unreproduced := 0
@@ -291,6 +331,9 @@ func cmdCheck(args []string) int {
 	}
 	wall := time.Since(t0).Seconds()
 	cov := buildCoverage(P, R, hs, cfg, *tier, loadS, exploreS, validated, confirmed, unreproduced)
+	if len(crossInfo) > 0 {
+		cov["cross_checked_with"] = crossInfo
+	}
 	writeEvidence(id, *tier, seed, cov, wall, confirmed, assumptionsFor(R), 0, *noEvidence)
 
 	fmt.Printf("gosmt property=%s tier=%s harnesses=%d paths=%d obligations=%d discharged=%d queries=%d solver_s=%.1f wall_s=%.1f candidates=%d confirmed=%d validated_vectors=%d\n",
